@@ -473,13 +473,15 @@ def net_spec(
     edges = []
     seen = set()
     lo = 0 if allow_empty else max(1, min_size)
+    # in half of the specs the edges use only part of the alphabet, so that pre-inserted nodes stay isolated
+    ealph = alph if (len(alph) <= 3 or draw(st.booleans())) else alph[: max(3, (len(alph) + 1) // 2)]
     for i in range(k):
         if cls == "DH":
-            tail = draw(st.lists(st.sampled_from(alph), min_size=0, max_size=3, unique=True))
-            head = draw(st.lists(st.sampled_from(alph), min_size=0 if (allow_empty or tail) else 1, max_size=3, unique=True))
+            tail = draw(st.lists(st.sampled_from(ealph), min_size=0, max_size=3, unique=True))
+            head = draw(st.lists(st.sampled_from(ealph), min_size=0 if (allow_empty or tail) else 1, max_size=3, unique=True))
             edges.append([eids[i], tail, head, draw(a)])
         else:
-            m = draw(st.lists(st.sampled_from(alph), min_size=lo, max_size=max_size, unique=True))
+            m = draw(st.lists(st.sampled_from(ealph), min_size=lo, max_size=min(max_size, len(ealph)), unique=True))
             if cls == "SC" and not m:
                 continue
             if (not allow_dups or cls == "SC") and frozenset(m) in seen:
